@@ -126,7 +126,39 @@ def body(ch):
     form = ch.pick('form', ('date', 'date_open_year', 'weekday', 'year', 'year_month', 'season', 'year_season', 'week',
                             'weekend', 'open_month', 'week_of_month', 'week_of_month_day', 'time', 'part_of_day',
                             'duration', 'present', 'date+time', 'open_date+time', 'weekday+time', 'date+part_of_day',
-                            'triple', 'from_date', 'from_date_time', 'from_time'))
+                            'triple', 'from_date', 'from_date_time', 'from_time', 'two-threads'))
+    if form == 'two-threads':
+        # the datatype under concurrent use: two threads each parse + format one canonical TIMEX under the controlled
+        # scheduler (every library call is a scheduling point); every schedule with <= 1 preemption (<= 2 for the first
+        # pair); each thread must get its own string back
+        import os
+        from vmc import env, sched
+        pool = ['2021-03', 'T17:30', 'P2W', 'XXXX-WXX-3', '2017-09-27T16:45:30', 'XXXX-05-29', '2020-W05-WE', 'PT45M', 'SU', 'PRESENT_REF']
+        a = ch.pick('timex_a', pool)
+        ch.shard()
+        b = ch.pick('timex_b', pool)
+        lib = os.path.join(env.REPO, 'Python', 'libraries')
+        Timex = T['Timex']
+        bodies = [lambda s=a: Timex(s).timex_value(), lambda s=b: Timex(s).timex_value()]
+        key = (a, b)
+        if key not in T.setdefault('counts', {}):
+            cs = []
+            for first in (0, 1):
+                ex = sched.run_plan(lib, 'calls', [(first, None), (1 - first, None)], bodies)
+                cs.append(ex.points[first])
+            T['counts'][key] = cs
+        plans = sched.plans_up_to(2 if (a, b) == (pool[0], pool[1]) else 1, T['counts'][key])
+        plan = ch.pick('plan', plans)
+        ex = sched.run_plan(lib, 'calls', plan, bodies)
+        ch.tally('schedules')
+        for tid, s in enumerate((a, b)):
+            got = ex.results[tid] if ex.errors[tid] is None else 'EXC ' + ex.errors[tid]
+            if got != s:
+                ch.fail('two-threads|%s' % ('exception' if ex.errors[tid] else 'wrong-string'),
+                        {'timex': [a, b], 'plan': plan, 'thread': tid, 'observed': got, 'expected': s})
+                return
+        ch.ok(outcome='two-threads', evals=2)
+        return
     if form in ('date_open_year', 'weekday', 'season', 'open_month', 'week_of_month', 'week_of_month_day', 'part_of_day',
                 'duration', 'present'):
         ch.shard()      # small forms: the whole sub-tree is one sequential history on one warm process
